@@ -16,6 +16,8 @@ from __future__ import annotations
 import base64
 import functools
 import logging
+import random
+import time
 from collections import deque
 
 from .. import tlc
@@ -423,7 +425,7 @@ def data_abstraction(world: World, user: str = 'user1') -> dict:
     return {'boxes': frozenset(n for n in mset._set if n in ('Box', 'Box2')),
             'fl': bool(m1 is not None and
                        any(bytes(f) == b'\\Flagged' for f in m1.permanent_flags)),
-            'grew': inbox._max_uid > (104 if user == 'user1' else 100)}
+            'grew': inbox._max_uid > 104}
 
 
 
@@ -435,18 +437,11 @@ def _message(box: str, i: int) -> bytes:
             % (box.encode(), i, b'x' * (7 * i + {'INBOX': 11, 'Sent': 23, 'Trash': 37}[box])))
 
 
-def provision(world: World, rich: bool) -> None:
+def provision(world: World) -> None:
     """Every user gets a mailbox and a sieve script `marker_<user>` (so that
-    LIST / LISTSCRIPTS show whose session it is).  rich: user1 additionally
-    gets what pymap's demo data would give (INBOX with UIDs 101..104, Sent
-    with two messages, a read-only Trash with one), without the 7 ms it takes
-    pymap to parse the demo files at every first login."""
-    from datetime import datetime, timezone
+    LIST / LISTSCRIPTS show whose session it is)."""
     from pymap.backend.dict.mailbox import MailboxSet
     from pymap.backend.dict.filter import FilterSet
-    from pymap.parsing.message import AppendMessage
-    from pymap.parsing.specials.flag import Flag
-    when = datetime(2020, 1, 1, tzinfo=timezone.utc)
 
     async def build():
         for user in USERS:
@@ -454,22 +449,34 @@ def provision(world: World, rich: bool) -> None:
             fset = FilterSet()
             await mset.add_mailbox('marker_' + user)
             await fset.put('marker_' + user, b'keep;\r\n')
-            if rich and user == 'user1':
-                flags = [[b'\\Seen'], [], [b'\\Answered', b'\\Seen'], [b'\\Draft']]
-                for i in range(4):
-                    await mset._inbox.append(AppendMessage(
-                        _message('INBOX', i + 1), when,
-                        frozenset(Flag(f) for f in flags[i])))
-                for name, n in (('Sent', 2), ('Trash', 1)):
-                    await mset.add_mailbox(name)
-                    mbx = await mset.get_mailbox(name)
-                    for i in range(n):
-                        await mbx.append(AppendMessage(_message(name, i + 1), when,
-                                                       frozenset()))
-                    if name == 'Trash':
-                        mbx._readonly = True
             world.config.set_cache[user] = (mset, fset)
     world.loop.run_coro(build())
+
+
+def provision_mail(world: World) -> None:
+    """user1 gets what pymap's demo data would give (INBOX with UIDs 101..104,
+    Sent with two messages, a read-only Trash with one) - without the 7 ms it
+    takes pymap to parse the demo files at a first login."""
+    from datetime import datetime, timezone
+    from pymap.parsing.message import AppendMessage
+    from pymap.parsing.specials.flag import Flag
+    when = datetime(2020, 1, 1, tzinfo=timezone.utc)
+    mset = world.config.set_cache['user1'][0]
+
+    async def build():
+        flags = [[b'\\Seen'], [], [b'\\Answered', b'\\Seen'], [b'\\Draft']]
+        for i in range(4):
+            await mset._inbox.append(AppendMessage(
+                _message('INBOX', i + 1), when, frozenset(Flag(f) for f in flags[i])))
+        for name, n in (('Sent', 2), ('Trash', 1)):
+            await mset.add_mailbox(name)
+            mbx = await mset.get_mailbox(name)
+            for i in range(n):
+                await mbx.append(AppendMessage(_message(name, i + 1), when, frozenset()))
+            if name == 'Trash':
+                mbx._readonly = True
+    world.loop.run_coro(build())
+
 
 # --------------------------------------------------------------------------
 # driving the real IMAP server
@@ -487,7 +494,8 @@ def fingerprints() -> dict:
         return _FINGERPRINTS
     w = World('dict', demo=False, users=USERS)
     try:
-        provision(w, True)
+        provision(w)
+        provision_mail(w)
         w.connect('f')
         w.login('f')
         for model_name, real in (('INBOX', b'INBOX'), ('RO', b'Trash'),
@@ -519,7 +527,10 @@ class ImapDriver:
         self.variants = variants
         self.world = World('dict', demo=False, users=USERS, tls=kw['tls'],
                            config_kw=config_kw)
-        provision(self.world, rich)
+        provision(self.world)
+        # the mail is put in place right before the first authentication
+        # exchange: nothing can look at it earlier
+        self._need_mail = rich
         self.c = self.world.connect('a', local=loc)
         self.transcript: list = []       # (direction, bytes)
         self.notes: set = set()
@@ -560,9 +571,15 @@ class ImapDriver:
 
     def execute(self, inp: dict) -> str:
         """Feed one abstract input; return the abstract result class."""
+        self.prepare(inp)
         if inp['kind'] == 'cmd':
             return self._command(inp['name'])
         return self._auth(inp['form'], inp['cred'])
+
+    def prepare(self, inp: dict) -> None:
+        if inp['kind'] == 'auth' and self._need_mail:
+            self._need_mail = False
+            provision_mail(self.world)
 
     def _finish(self, out: bytes, tag: bytes | None) -> str:
         try:
@@ -985,7 +1002,7 @@ class SieveDriver:
         self.local = loc
         self.rng = rng
         self.world = World('dict', demo=False, users=USERS, tls=kw['tls'])
-        provision(self.world, False)
+        provision(self.world)
         self.c = self.world.connect('a', local=loc, service='sieve')
         self.transcript: list = []
         self.notes: set = set()
@@ -1028,6 +1045,9 @@ class SieveDriver:
         if cond in ('NONE', 'UNPARSABLE'):
             return cond
         return ('+' if cont else '') + cond
+
+    def prepare(self, inp: dict) -> None:
+        pass
 
     def execute(self, inp: dict) -> str:
         if inp['kind'] == 'cmd':
@@ -1137,6 +1157,7 @@ class Tracked:
             return 'nolabel'
         inp = m.parsed[label]
         pre = m.nodes[self.cur]
+        d.prepare(inp)
         before = snapshot(d.world)
         last = d.execute(inp)
         after = snapshot(d.world)
@@ -1187,3 +1208,189 @@ def _snap_diff(a: dict, b: dict) -> dict:
             else:
                 out[k] = (repr(a.get(k))[:200], repr(b.get(k))[:200])
     return out
+
+
+# --------------------------------------------------------------------------
+# kinds of executions, shared by c05 / c09
+
+class Exec:
+    """Bookkeeping shared by all kinds of executions of one configuration.
+
+    make_driver(env, rng) -> driver."""
+
+    def __init__(self, run, prop: str, model: Model, cfg: str, make_driver,
+                 first_id: int = 0):
+        self.run = run
+        self.prop = prop
+        self.model = model
+        self.cfg = cfg
+        self.make_driver = make_driver
+        self.n = first_id
+        self.steps = 0
+        self.execs = 0
+        self.notes: set = set()
+        self.nolabel = 0
+        self.accepted_auth = 0
+        self.refused_auth = 0
+
+    def start(self, env: str, kind: str, protocol: bool = True) -> Tracked:
+        self.n += 1
+        sub = (self.run.seed * 1000003 + self.n) & 0x7fffffff
+        rng = random.Random(sub)
+        drv = self.make_driver(env, rng)
+        t = Tracked(self.model, drv, {'env': env, 'kind': kind, 'rng_seed': sub,
+                                      'local': drv.local}, protocol=protocol)
+        if t.cur is None:
+            self.run.drift.append({'why': 'greeting / initial state matches no initial '
+                                          'state of the model', 'env': env,
+                                   'observed': obs_str(t.obs0)})
+        return t
+
+    def finish(self, t: Tracked) -> None:
+        run = self.run
+        self.steps += len(t.labels)
+        self.execs += 1
+        self.notes |= t.d.notes
+        out = t.d.outcome()
+        if isinstance(out, tuple):
+            # connection task died with an exception (C06's business; noted)
+            self.notes.add('connection task ended with ' + out[1][:80])
+        run.count_exec([self.cfg, t.meta['env']] + t.labels, nontrivial=t.changed)
+        if t.problem:
+            verdict, what, sig, detail = t.problem
+            if verdict == 'violation':
+                run.violation(what, t.replay_dict(self.prop, self.cfg), sig)
+            else:
+                run.drift.append({'labels': t.labels[-8:], 'what': what[:600]})
+        if len(run.cov['samples']) < 3 and t.changed and len(t.labels) >= 3:
+            run.sample({'cfg': self.cfg, 'env': t.meta['env'], 'kind': t.meta['kind'],
+                        'trace': t.trace[:12]})
+        t.d.close()
+
+
+def tour(ex: Exec, max_len: int, deadline: float, protocol: bool = True,
+         kind: str = 'tour') -> dict:
+    """Transition tour.  protocol=False: without protocol probes (state read
+    off the connection object) - for configurations in which the probes
+    themselves would disturb what is being looked at."""
+    model = ex.model
+    pl = Planner(model, None)
+    total = pl.left()
+    paths = 0
+    nav_steps = 0
+    while pl.left() and time.time() < deadline:
+        init = pl.best_init()
+        if init is None:
+            break
+        env = env_of_init(model, init)[0]
+        t = ex.start(env, kind, protocol=protocol)
+        paths += 1
+        if t.cur is None:
+            ex.finish(t)
+            break
+        # (if the server started in another initial state of the model than
+        # the one aimed at, the plan simply continues from there)
+        while len(t.labels) < max_len and not model.is_closed(t.cur):
+            core = model.core_of[t.cur]
+            label, cover = pl.choose(core)
+            if label is None:
+                break
+            v = t.step(label, protocol=protocol and cover)
+            pl.done(core, label)
+            if not cover:
+                nav_steps += 1
+            if v != 'ok':
+                break
+        ex.finish(t)
+    return {'pairs': total, 'uncovered': pl.left(), 'paths': paths,
+            'navigation_steps': nav_steps}
+
+
+def run_labels(ex: Exec, env: str, labels, kind: str, probe_every: int = 1) -> None:
+    """probe_every = n: the protocol probes run after every n-th input and
+    after the last one; in between the state is read off the connection object."""
+    t = ex.start(env, kind, protocol=probe_every == 1)
+    if t.cur is not None:
+        for i, label in enumerate(labels):
+            if ex.model.is_closed(t.cur):
+                break
+            v = t.step(label, protocol=(i + 1) % probe_every == 0 or i + 1 == len(labels))
+            if v == 'nolabel':
+                ex.nolabel += 1
+                break
+            if v != 'ok':
+                break
+    ex.finish(t)
+
+
+def biased_walk(ex: Exec, env: str, rng, length: int, protocol: bool = True,
+                kind: str = 'walk') -> None:
+    """Inputs chosen from the graph: half of the time one that changes the
+    state in the model."""
+    model = ex.model
+    t = ex.start(env, kind, protocol=protocol)
+    if t.cur is not None:
+        for _ in range(length):
+            if model.is_closed(t.cur):
+                break
+            outs = model.out.get(t.cur, {})
+            core = model.core_of[t.cur]
+            moving = [l for l, ds in sorted(outs.items())
+                      if any(model.core_of[x] != core and not model.is_closed(x) for x in ds)]
+            if moving and rng.random() < 0.5:
+                label = rng.choice(moving)
+            else:
+                label = rng.choice(sorted(outs))
+            if t.step(label, protocol=protocol) != 'ok':
+                break
+    ex.finish(t)
+
+
+def load_model(run, cfg: str):
+    try:
+        graph, res = tlc.dump_graph('Conn.tla', cfg, workers=8)
+    except tlc.TLCError as exc:
+        run.machinery(str(exc))
+        return None
+    run.add_model(res, cfg)
+    if not res.ok:
+        run.machinery(f'model check of {cfg} failed: {res.violated or res.error}')
+        return None
+    model = Model(graph)
+    bad = model.check_output_independent()
+    if bad:
+        run.machinery(bad)
+        return None
+    return model
+
+
+def replay_file(prop: str, path: str, make_driver_for) -> int:
+    """Re-run a recorded sequence, printing every step."""
+    import json
+    from ..common import Run
+    rec = json.load(open(path))
+    rep = rec['replay']
+    run = Run(prop, 'replay')
+    model = load_model(run, rep['cfg'])
+    if model is None:
+        return 2
+    fingerprints()
+    rng = random.Random(rep['rng_seed'])
+    drv = make_driver_for(rep['cfg'])(rep['env'], rng)
+    glass = rep['cfg'] == 'Conn_badlimit.cfg'
+    t = Tracked(model, drv, {'env': rep['env'], 'kind': 'replay',
+                             'rng_seed': rep['rng_seed']}, protocol=not glass)
+    status = 0
+    for label in rep['labels']:
+        v = t.step(label, protocol=not glass)
+        print(f"{label:60s} {t.trace[-1]['observed'] if t.trace else ''}  [{v}]")
+        if v != 'ok':
+            if t.problem:
+                print('  ', t.problem[1])
+                print('   signature:', t.problem[2])
+            status = 1 if v == 'violation' else 0
+            break
+    for d, b in drv.transcript[-14:]:
+        print(d, b[:200])
+    drv.close()
+    return status
